@@ -72,8 +72,8 @@ func initAllowed(path string) bool {
 	}
 	switch path {
 	case "unicode/utf8", "unicode", "strings", "bytes", "strconv", "sort", "slices", "maps",
-		"errors", "io", "io/fs", "internal/oserror", "path", "bufio", "go/token",
-		"go/types", "go/ast", "go/constant", "go/scanner", "unicode/utf16", "math/bits", "internal/stringslite", "internal/bytealg", "cmp", "iter", "text/scanner", "context":
+		"errors", "io", "io/fs", "internal/oserror", "path", "path/filepath", "internal/filepathlite", "bufio", "go/token",
+		"go/types", "go/ast", "go/constant", "go/scanner", "unicode/utf16", "math/bits", "internal/stringslite", "internal/bytealg", "cmp", "iter", "text/scanner", "context", "github.com/go-courier/logr", "github.com/octohelm/x/context":
 		return true
 	}
 	return false
